@@ -279,13 +279,16 @@ func itemsFromFor(
 	var values []any  // The list of values to loop over
 	// Get the list from a matrix
 	if f.Matrix.Len() != 0 {
-		if err := resolveMatrixRefs(f.Matrix, cache); err != nil {
+		// The matrix belongs to the task definition, which is shared by every
+		// call of the task: resolve the references on a private copy.
+		matrix := f.Matrix.DeepCopy()
+		if err := resolveMatrixRefs(matrix, cache); err != nil {
 			return nil, nil, errors.TaskfileInvalidError{
 				URI: location.Taskfile,
 				Err: err,
 			}
 		}
-		return asAnySlice(product(f.Matrix)), nil, nil
+		return asAnySlice(product(matrix)), nil, nil
 	}
 	// Get the list from the explicit for list
 	if len(f.List) > 0 {
